@@ -3,6 +3,15 @@ package main
 // Per-property driver configuration. rule/assumptions go verbatim into the
 // evidence file; the counts next to them are measured by the test processes.
 var props = map[string]propCfg{
+	"C20": {
+		rule: "diff: a generated pattern p (restricted to syntax with ECMAScript-defined meaning) and its engine-forcing neutral variant (p(?=), (?=)p, (?:p)(?!\\b\\B)) are run in a pristine runtime (fast path) and in a runtime de-optimised by forwarding wrappers / subclassing (generic path); a case is non-trivial when the hook VerifRegexpEngine shows the pair on two different engines, the pattern has >=1 capture group, the first exec matches, and the match is non-empty or a code unit >= 0x80 precedes it; syntax: a pattern/flags pair whose (in)validity is known by construction is non-trivial when it is invalid; distinct = FNV-64 of pattern, flags, subject, representation, lastIndex, variant, de-optimisation, constructor form and operation list",
+		assumptions: []string{
+			"the three variants are semantically neutral in ECMAScript ((?=) always succeeds, \\b\\B can never both hold)",
+			"the reference protocol (Symbol.match/matchAll/replace/search/split, GetSubstitution) in the JS prelude transcribes ECMA-262 2023 correctly; it is evaluated by goja itself on top of exec()",
+			"under the i flag every character >= 0x80 in pattern and subject has no case mapping (generator restriction), so Canonicalize is exact for the ASCII-only model",
+			"the specification matcher (model.go) is used only to attribute blame and for informative counters, never for the verdict",
+		},
+	},
 	"C06": {
 		rule: "pairs of string-producing step sequences (operator trees of depth <= 4 in SSA form) constructed so that the strref reference value of both final steps is the same UTF-16 sequence; tree B is tree A with independently chosen leaf origins (literal styles, fromCharCode/fromCodePoint, Go string via vm.Set, JSON.parse, unescape, decodeURIComponent, NFKC of fullwidth text) plus value-preserving route edits; a case is non-trivial when the common value is non-empty and the step values of the case were held in at least two different internal representations (ascii / utf16 / imported-unscanned / imported-ascii / imported-utf16, read with the VerifStrRepr hook); normalize sub-check: non-trivial when the operand is non-empty and non-ASCII; distinct = FNV-64 of the Go bindings and all step sources",
 		assumptions: []string{
